@@ -372,6 +372,13 @@ def rules_C09(ctx):
 
 
 # ----------------------------------------------------------------------------- C10
+def _strip_casts(e):
+    e = strip_refs(e)
+    while e[0] == "cast":
+        e = strip_refs(e[2])
+    return e
+
+
 def rule_C10(ctx):
     F, cg = ctx.F, ctx.cg
     M = mis(F)
@@ -405,8 +412,12 @@ def rule_C10(ctx):
             for s in blk["stmts"]:
                 if s["k"] == "assign" and s["rv"]["k"] == "aggregate" and s["rv"].get("adt") == "repr::static_buffer::StaticBuffer":
                     found = True
-                    d = describe(sb, sb.origin_operand(s["rv"]["fields"][0]))
-                    good = re.search(r"new_unchecked\((\(|core::ptr::const_ptr::<impl \*const T>::cast_mut\()?core::str::<impl str>::as_ptr\(p1\)", d) is not None
+                    # whichever field holds the pointer, and whatever pointer wrapper it is kept in
+                    # (NonNull, *const u8, *mut u8): it is the caller's text.as_ptr()
+                    from guards import peel_ptr
+                    pf = [f for f in s["rv"]["fields"] if describe(sb, peel_ptr(sb, _strip_casts(sb.origin_operand(f)))) == "core::str::<impl str>::as_ptr(p1)"]
+                    d = [describe(sb, sb.origin_operand(f)) for f in s["rv"]["fields"]]
+                    good = len(pf) == 1
                     ctx.ob("C10-borrow", sb.path, "ptr-field", good, how="ptr = NonNull::new_unchecked(text.as_ptr() as *mut _)", detail="StaticBuffer stores pointer %s, not the caller's text pointer" % d)
         ctx.need("C10-borrow", sb.path, "aggregate", found, "StaticBuffer aggregate not found in StaticBuffer::new")
     # under kind=Static: no allocation, no store through the pointer
@@ -453,4 +464,6 @@ def rule_C10(ctx):
                     ctx.ob("C10-mutptr", path, "cast_mut-of-field0", under_heap, how="*mut derived from Repr.0 only on the is_heap_buffer() edge", line=t.get("line", 0),
                            detail="mutable pointer derived from the storage pointer without a heap guard (would alias borrowed static text)")
     ctx.need("C10-mutptr", "crate", "sites", n >= 1, "no `self.0 as *mut u8` site found (as_slice_mut changed shape?)", how="%d site(s)" % n)
-    ctx.take_ts(["R-contract.kind=Static", "R-contract.Modifiable"])
+    # a borrowed handle is never viewed as a heap / inline buffer (it would be re-tagged, counted or
+    # freed), never handed to a write-capable view, never written through its pointer
+    ctx.take_ts(["R-contract.kind=", "R-contract.Modifiable", "R-contract.write"])
